@@ -289,3 +289,17 @@ def report(ck, fails, mism, prefix, component):
                 continue
             ck.fail('model-disagrees', 'Coq model and implementation disagree', {'component': 'Model/WaveSimModel.v', 'input': m,
                                                                                  'broken': ['correspondence WaveSim']}, found_input=False)
+
+
+def regen_kernel(ck):
+    """Tie T for the timing kernels: regenerates Gen/WaveEvalSrc.v from the CURRENT text of wave_sim.py (translate/gen_wave_eval.py,
+    a fail-closed `ast` translator).  The theorems *_kernel_source_is_model / *_source_* are proved about the generated file, so a
+    change of the kernel's text either still proves or breaks the obligation."""
+    from vcheck import gen_all
+    res = gen_all.generate(['WaveEvalSrc'])
+    ck.obligation('translate wave_sim._wave_eval / wave_capture_cpu / wave_capture_gpu -> Gen/WaveEvalSrc.v', res['WaveEvalSrc'] is None,
+                  'translation', res['WaveEvalSrc'] or '')
+    ck.trust('translator translate/gen_wave_eval.py (syntax-directed, whitelisted statement / expression forms, definite-assignment and '
+             'type check; every cbuf / c access must be in the column of the kernel\'s own lane variable) and the meaning of its primitives '
+             '(Model/WaveSrcPrelude.v: region-wise memory, extended-integer time); the hand-written model stays tied by correspondence as well')
+    return res['WaveEvalSrc'] is None
